@@ -223,11 +223,19 @@ def run(chk, replay_case=None):
     if not ok_cases:
         raise vlib.TieBroken("the model does not type-check on the regenerated tcc table:\n" + out_cases[-1500:])
     n = 250 if chk.tier == "quick" else 40000
-    data, secs = vlib.run_harness("tcc", chk.tmp("tcc.json"), timeout=3000, seed=chk.seed, n=n, repo=vlib.REPO)
+    if replay_case is not None:
+        rp = chk.tmp("replay_in.json")
+        json.dump(replay_case, open(rp, "w"))
+        data, secs = vlib.run_harness("tcc", chk.tmp("tcc.json"), timeout=600, seed=chk.seed, replay=rp, repo=vlib.REPO)
+        if not data.get("prepares") and not data.get("phase2"):
+            print("the recorded case cannot be rebuilt on its own (parameter of a hand-declared type): running the whole check")
+            replay_case = None
+    if replay_case is None:
+        data, secs = vlib.run_harness("tcc", chk.tmp("tcc.json"), timeout=3000, seed=chk.seed, n=n, repo=vlib.REPO)
     if data.get("setup"):
         raise vlib.TieBroken("tcc services could not be registered: " + data["setup"])
     names = data["names"]
-    prepares, phase2 = data["prepares"], data["phase2"]
+    prepares, phase2 = data.get("prepares") or [], data.get("phase2") or []
     for c in prepares:
         c["_name"] = names[c["action"]]
     findings = vlib.known_findings("C05")
@@ -298,7 +306,7 @@ def run(chk, replay_case=None):
         "finding_stream_cases": len(known_q),
         "input_distribution": data.get("dist"),
         "harness_seconds": round(secs, 1),
-        "samples": [slim(c) for k, c in cases[3:4] + cases[len(prepares) + 5:len(prepares) + 6]],
+        "samples": [slim(c) for k, c in (cases[3:4] + cases[len(prepares) + 5:len(prepares) + 6]) or cases[:1]],
     })
     chk.assumptions += ["json text syntax is not modelled; float64 values are exchanged as exact dyadic rationals",
                         "NaN/Inf parameters (json.Marshal fails, error ignored) and invalid UTF-8 strings are not generated",
@@ -307,4 +315,8 @@ def run(chk, replay_case=None):
 
 
 def replay(chk, path):
-    return run(chk)
+    r = json.load(open(path))
+    if "case" not in r or "kind" not in r:
+        print("replay names a proof obligation, not an input: " + json.dumps(r)[:400])
+        return run(chk)
+    return run(chk, replay_case={"kind": r["kind"], "case": r["case"]})
